@@ -562,7 +562,7 @@ def cross_interpreter(prop, seeds, quarantine):
     import os as _os
     import subprocess as _sp
     import sys as _sys
-    seeds = list(seeds)[:300]
+    seeds = list(seeds)[:150]
     mine = result_digests(seeds, quarantine)
     env = dict(_os.environ, PYTHONHASHSEED='271828')
     code = ("import sys, json; sys.path.insert(0, %r); from sim import core, smachine; core.load_pjplan(); "
